@@ -568,6 +568,62 @@ DERIVED_OR_UNOBSERVABLE = {"parent_workflow", "parent_product", "error", "error_
                            "quality_skill_sd_map", "additional_work_amount", "additional_task_flag", "actual_work_amount"}
 
 
+def c16_export_faithful():
+    """C16: an exported value is the attribute itself, a conversion of it or a comprehension over it - never a value that depends
+    on the TRUTHINESS of the attribute (`x if self.f else None`, `self.f or []`): an empty list, 0 or 0.0 are legitimate settings
+    that python treats as false, so such an export cannot be inverted by the reader.  Tests against None are fine."""
+    s = src()
+    out = []
+    for cname in sorted(s.classes):
+        ci = s.classes[cname]
+        if ci.is_enum or "export_dict_json_data" not in ci.methods:
+            continue
+        hits = []
+        for key, expr in _exported(cname).items():
+            for n in ast.walk(expr):
+                tests = []
+                if isinstance(n, ast.IfExp):
+                    tests.append(n.test)
+                if isinstance(n, ast.BoolOp):
+                    tests += n.values[:-1]
+                if isinstance(n, ast.comprehension):
+                    tests += list(n.ifs)
+                for t in tests:
+                    bare = t.operand if isinstance(t, ast.UnaryOp) and isinstance(t.op, ast.Not) else t
+                    if isinstance(bare, (ast.Attribute, ast.Name, ast.Subscript)):
+                        hits.append("%s: `%s` is tested for truthiness in `%s`" % (key, ast.unparse(bare), ast.unparse(expr)[:70]))
+        out.append(rec("C16.export-does-not-depend-on-truthiness.%s" % cname, not hits, "; ".join(hits)))
+    return out
+
+
+def c16_restore_in_saved_order():
+    """C16 / C15: read_simple_json first stores the saved ID lists in the attributes and then resolves them to objects.  Every such
+    resolution `x.a = [lookup(ID) for ID in x.a]` must iterate over the saved list itself, without a filter: then the restored list
+    has the saved length and order (the i-th worker and the i-th facility of a task form a pair; placement order is part of the
+    saved state).  A list rebuilt by filtering some other collection has that collection's order."""
+    s = src()
+    hits, n = [], 0
+    try:
+        _, fn = s.get_function("BaseProject.read_simple_json")
+    except KeyError:
+        return [rec("C16.references-restored-in-saved-order", False, "BaseProject.read_simple_json not found")]
+    for node in ast.walk(fn):
+        if isinstance(node, ast.Assign) and len(node.targets) == 1 and isinstance(node.targets[0], ast.Attribute) \
+                and isinstance(node.value, (ast.ListComp, ast.GeneratorExp)):
+            tgt = node.targets[0]
+            comp = node.value
+            n += 1
+            g = comp.generators[0]
+            ok = (len(comp.generators) == 1 and not g.ifs and isinstance(g.iter, ast.Attribute) and g.iter.attr == tgt.attr
+                  and ast.unparse(g.iter.value) == ast.unparse(tgt.value))
+            if not ok:
+                hits.append("line %d: %s.%s is rebuilt from `%s`%s, not from the saved list itself" % (
+                    node.lineno, ast.unparse(tgt.value), tgt.attr, ast.unparse(g.iter)[:40], " with a filter" if g.ifs else ""))
+    if n == 0:
+        hits.append("no ID-resolution statement found (shape of read_simple_json changed)")
+    return [rec("C16.references-restored-in-saved-order", not hits, "; ".join(hits))]
+
+
 def c16_format_complete():
     """C16(c): every constructor parameter whose attribute is read on the simulation path is saved and passed back on load"""
     fns = _functions()
